@@ -576,6 +576,162 @@ static void explore(vr::Runner& R, const std::string& name, unsigned depth, std:
   extra += "\"" + name + "\": {" + ex.extra_json() + "}";
 }
 
+// ---------------------------------------------------------------------------------------------------------------
+// Two DIFFERENT pools over two different stateful base allocator instances, assigned to one another (family
+// A2_two_pools): every operation sequence up to a depth; each base allocator instance keeps its own ledger.
+// Invariants after every step: a block is freed only through the instance that handed it out; a base instance holds
+// blocks iff the pool created over it still has an owner; a request that needs a new chunk takes it from the base of
+// the pool the handle currently shares; blocks handed out by one pool stay intact and disjoint until that pool is
+// cleared or dies; when all handles are gone both instances are empty.
+struct InstBase {
+  std::map<void*, size_t> live;
+  int foreign = 0;
+  uint64_t mallocs = 0;
+  void* Malloc(size_t n) {
+    if (!n) return nullptr;
+    void* p = std::malloc(n);
+    std::memset(p, 0xEE, n);
+    live[p] = n;
+    mallocs++;
+    return p;
+  }
+  void* Realloc(void* o, size_t, size_t n) {
+    void* p = Malloc(n);
+    if (o) Free(o);
+    return p;
+  }
+  void Free(void* p) {
+    if (!p) return;
+    auto it = live.find(p);
+    if (it == live.end()) {
+      foreign++;
+      return;  // not ours: do not touch it
+    }
+    live.erase(it);
+    std::free(p);
+  }
+};
+static const char* kA2Ops[11] = {"Malloc(24)@X", "Malloc(100)@X", "Malloc(24)@Y", "Malloc(100)@Y", "X = Y", "Y = X", "X = move(Y)", "Clear@X", "Clear@Y", "destroy X", "destroy Y"};
+static std::string a2_run(const std::vector<unsigned>& ops, bool& pruned) {
+  using Pool = MemoryPoolAllocator<InstBase>;
+  pruned = false;
+  InstBase base[2];
+  struct Blk {
+    char* p;
+    size_t n;
+    uint8_t pat;
+    int pool;
+  };
+  std::vector<Blk> blocks;
+  std::string err;
+  {
+    Pool* h[2] = {new Pool(64, &base[0]), new Pool(64, &base[1])};
+    int st[2] = {1, 1};      // 0 destroyed, 1 alive, 2 moved-from
+    int pool_of[2] = {0, 1}; // which underlying pool the handle shares
+    int owners[2] = {1, 1};
+    uint8_t pat = 1;
+    auto drop_owner = [&](int pl) {
+      if (--owners[pl] == 0)
+        blocks.erase(std::remove_if(blocks.begin(), blocks.end(), [&](const Blk& b) { return b.pool == pl; }), blocks.end());
+    };
+    for (size_t step = 0; step < ops.size() && err.empty(); step++) {
+      unsigned op = ops[step];
+      auto fail = [&](const std::string& m) { err = "step " + std::to_string(step + 1) + " (" + kA2Ops[op] + "): " + m; };
+      if (op < 4) {
+        int hd = op / 2;
+        if (st[hd] != 1) {
+          pruned = true;
+          break;
+        }
+        size_t n = op % 2 ? 100 : 24;
+        int pl = pool_of[hd];
+        uint64_t m0 = base[pl].mallocs, o0 = base[1 - pl].mallocs;
+        char* p = (char*)h[hd]->Malloc(n);
+        if (!p) {
+          fail("Malloc returned null");
+          break;
+        }
+        if (base[1 - pl].mallocs != o0) fail("the chunk for a pool created over one base allocator was requested from the OTHER base allocator instance");
+        if (n == 100 && base[pl].mallocs == m0 && err.empty()) fail("a 100-byte request on 64-byte chunks did not obtain a chunk from the pool's base allocator");
+        std::memset(p, pat, n);
+        blocks.push_back({p, n, pat, pl});
+        if (++pat == 0) pat = 1;
+      } else if (op == 4 || op == 5) {
+        int dst = op == 4 ? 0 : 1, src = 1 - dst;
+        if (st[src] != 1 || st[dst] == 0) {
+          pruned = true;
+          break;
+        }
+        if (st[dst] == 1) drop_owner(pool_of[dst]);
+        *h[dst] = *h[src];
+        st[dst] = 1;
+        pool_of[dst] = pool_of[src];
+        owners[pool_of[src]]++;
+      } else if (op == 6) {
+        if (st[1] != 1 || st[0] == 0) {
+          pruned = true;
+          break;
+        }
+        if (st[0] == 1) drop_owner(pool_of[0]);
+        *h[0] = std::move(*h[1]);
+        st[0] = 1;
+        pool_of[0] = pool_of[1];
+        st[1] = 2;
+      } else if (op == 7 || op == 8) {
+        int hd = op - 7;
+        if (st[hd] != 1) {
+          pruned = true;
+          break;
+        }
+        h[hd]->Clear();
+        int pl = pool_of[hd];
+        blocks.erase(std::remove_if(blocks.begin(), blocks.end(), [&](const Blk& b) { return b.pool == pl; }), blocks.end());
+      } else {
+        int hd = op - 9;
+        if (st[hd] == 0) {
+          pruned = true;
+          break;
+        }
+        if (st[hd] == 1) drop_owner(pool_of[hd]);
+        delete h[hd];
+        h[hd] = nullptr;
+        st[hd] = 0;
+      }
+      if (!err.empty()) break;
+      // invariants
+      for (int b = 0; b < 2; b++) {
+        if (base[b].foreign) fail("base allocator instance " + std::to_string(b) + " was asked to free a block it never handed out (a pool released through the wrong base allocator)");
+        if (err.empty() && (owners[b] > 0) != !base[b].live.empty())
+          fail(std::string("base allocator instance ") + std::to_string(b) + (owners[b] > 0 ? " holds no block although its pool still has owners" : " still holds " + std::to_string(base[b].live.size()) + " block(s) although its pool has no owner left"));
+      }
+      for (size_t i = 0; i < blocks.size() && err.empty(); i++) {
+        for (size_t k = 0; k < blocks[i].n; k++)
+          if ((uint8_t)blocks[i].p[k] != blocks[i].pat) {
+            fail("a block handed out earlier was disturbed");
+            break;
+          }
+        bool inside = false;
+        for (auto& kv : base[blocks[i].pool].live)
+          if (blocks[i].p >= (char*)kv.first && blocks[i].p + blocks[i].n <= (char*)kv.first + kv.second) inside = true;
+        if (!inside && err.empty()) fail("a live block does not lie in memory obtained from its pool's base allocator");
+        for (size_t j = i + 1; j < blocks.size() && err.empty(); j++)
+          if (blocks[i].p < blocks[j].p + blocks[j].n && blocks[j].p < blocks[i].p + blocks[i].n) fail("two live blocks overlap");
+      }
+    }
+    for (int i = 0; i < 2; i++)
+      if (h[i]) delete h[i];
+  }
+  if (err.empty() && !pruned) {
+    for (int b = 0; b < 2; b++) {
+      if (base[b].foreign) err = "at the end: base allocator instance " + std::to_string(b) + " was asked to free a block it never handed out";
+      else if (!base[b].live.empty()) err = "at the end: base allocator instance " + std::to_string(b) + " still holds " + std::to_string(base[b].live.size()) + " block(s) after every handle was destroyed";
+    }
+  }
+  for (int b = 0; b < 2; b++)
+    for (auto& kv : base[b].live) std::free(kv.first);
+  return err;
+}
+
 int main(int argc, char** argv) {
   vr::Args args = vr::parse_args(argc, argv);
   vr::Runner R(args);
@@ -608,6 +764,45 @@ int main(int argc, char** argv) {
   // requests of 2^31, 2^32 +- a few bytes, 2^33 (chunks are address space only)
   explore<AllocSim<SimpleChunkPolicy, HUGE_REQUESTS>>(R, "A_simple_huge", d_side, extra, states, trans, args, rrc);
   explore<AllocSim<AdaptiveChunkPolicy, HUGE_REQUESTS>>(R, "A_adaptive_huge", d_side, extra, states, trans, args, rrc);
+  // two pools over two base allocator instances, assigned to one another: all operation sequences up to a depth
+  {
+    const unsigned D2 = quick ? 5 : 6;
+    vr::Family f2;
+    f2.name = "A2_two_pools_two_bases";
+    f2.count = 1;
+    for (unsigned i = 0; i < D2; i++) f2.count *= 11;
+    f2.group = "A2";
+    f2.chunk = 256;
+    f2.rule = "two pools X, Y (chunk capacity 64) over two DIFFERENT stateful base allocator instances: every sequence of " + std::to_string(D2) +
+              " operations from {Malloc(24) / Malloc(100) through X / Y, X = Y, Y = X, X = move(Y), Clear through X / Y, destroy X / Y} (sequences using a dead handle are pruned): a block is freed only through the instance that handed it out, an instance holds blocks iff its pool has an owner, new chunks come from the base of the pool the handle shares, blocks stay intact, disjoint and inside their pool's chunks, nothing is left at the end";
+    vr::CheckFn check2 = [&](const vr::Family& f, uint64_t idx, vr::Ctx& ctx) {
+      std::vector<unsigned> ops;
+      uint64_t x = idx;
+      for (unsigned i = 0; i < D2; i++, x /= 11) ops.push_back((unsigned)(x % 11));
+      bool pruned = false;
+      std::string e = a2_run(ops, pruned);
+      if (pruned) {
+        ctx.skip();
+        return;
+      }
+      ctx.eval();
+      ctx.nontriv();
+      std::string desc;
+      for (unsigned o : ops) desc += std::string(kA2Ops[o]) + " ; ";
+      if (ctx.want_sample) ctx.sample(desc);
+      if (!e.empty()) ctx.violation("two_pools", "alloc_two_pools", desc, "%s", e.c_str());
+      (void)f;
+    };
+    if (args.replay) {
+      if (args.replay_family == f2.name) {
+        std::vector<vr::Family> one = {f2};
+        return R.replay_one(one, check2);
+      }
+    } else {
+      const std::string only2 = args.get("only");
+      if (only2.empty() || ("," + only2 + ",").find("," + f2.name + ",") != std::string::npos) R.run(f2, check2);
+    }
+  }
   if (args.replay) return rrc < 0 ? 2 : rrc;
   std::string ej = "\"states\": " + std::to_string(states) + ", \"transitions\": " + std::to_string(trans) + ", \"explorers\": {" + extra + "}";
   return R.finish(ej);
